@@ -3,4 +3,5 @@ CONSTANTS
   MaxItems = 3
   Use = {1, 2, 3, 4, 5, 6, 7, 8, 9, 10, 11, 12}
 INVARIANTS TypeOK EmitCat
+PROPERTIES ErrIsFinal
 CHECK_DEADLOCK FALSE
